@@ -238,6 +238,11 @@ class Translator:
                         v = None
                     if v is not None and v in getattr(self, "_arity", {}):
                         v = sp.Tuple(*[sp.Function("item")(v, sp.Integer(i)) for i in range(self._arity[v])])
+                    elif v is not None and getattr(self, "call_arity", None) is not None and isinstance(v, sp.core.function.AppliedUndef):
+                        # f(*g(...)) where every return of the package function g is a tuple of the same length
+                        k = self.call_arity(v.func.__name__)
+                        if k is not None:
+                            v = sp.Tuple(*[sp.Function("getitem")(v, sp.Integer(i)) for i in range(k)])
                     if isinstance(v, sp.Tuple):
                         changed = True
                         for i, x in enumerate(v):
